@@ -249,6 +249,10 @@ def check_builders(ctx, oid="C13.4", only=None):
 
 
 def run(ctx):
+    # no hidden state: what this property is about keeps nothing at module level between calls (memo tables keyed by less than
+    # the value depends on, caches of the outside world, counters) -- a verdict on one call must hold for every later call
+    from .. import rules as _rules
+    _rules.check_hidden_state(ctx, 'C13.6', ['bits.script.utils.script', 'bits.script.utils.decode_script', 'bits.script.utils.p2pkh_script_pubkey', 'bits.script.utils.multisig_script_pubkey'])
     check_push_selection(ctx)
     check_reader(ctx)
     c05.check_witness(ctx, "C13.3")
